@@ -240,6 +240,32 @@ pub fn cards(n: usize) -> Tree {
     chance("deal", kids)
 }
 
+/// a "hot" game for the parallel solvers: three rounds of a simultaneous 3 x 3 move in which each player remembers the
+/// own actions only, so every infoset has many nodes spread over all parallel tasks (shared accumulators under contention)
+pub fn hot() -> Tree {
+    fn rec(round: usize, h1: &mut Vec<usize>, h2: &mut Vec<usize>, acc: i64) -> Tree {
+        if round == 3 {
+            return term(acc % 7 - 3);
+        }
+        let i1: String = h1.iter().map(|x| x.to_string()).collect();
+        let mut kids1 = Vec::new();
+        for a in 0..3 {
+            h1.push(a);
+            let i2: String = h2.iter().map(|x| x.to_string()).collect();
+            let mut kids2 = Vec::new();
+            for b in 0..3 {
+                h2.push(b);
+                kids2.push(PKid { a: format!("b{b}"), t: rec(round + 1, h1, h2, acc * 3 + ((a * 2 + b * 5 + round) % 4) as i64 + 1) });
+                h2.pop();
+            }
+            kids1.push(PKid { a: format!("a{a}"), t: Tree::P { pl: 2, info: format!("q{i2}"), kids: kids2 } });
+            h1.pop();
+        }
+        Tree::P { pl: 1, info: format!("p{i1}"), kids: kids1 }
+    }
+    rec(0, &mut Vec::new(), &mut Vec::new(), 0)
+}
+
 /// games whose size crosses thresholds an implementation might special-case (64 / 1024 infosets of one player, counts
 /// that are not multiples of the thread count or of 32)
 pub fn large() -> Vec<(String, Tree)> {
